@@ -45,6 +45,11 @@ CHECKS = {
    note="Trusted: encoding/json of the host toolchain as the reference, the independent tree comparer. Cyclic containers and nesting deeper than 20000 are not driven (fatal stack overflow is C05's topic).",
    technique="bounded exhaustive enumeration of byte strings / values against encoding/json as reference model",
    design="4/C18"),
+ "C19": dict(
+   text="Every function and constant of text, math, base64, hex, enum and the clock-independent part of times x every argument tuple of the documented arity over typed alphabets (strings incl. regex/base64/hex shapes, ints, floats incl. NaN/Inf, bytes, times incl. non-UTC zones, arrays, functions) plus arity +-1 and one wrong-typed value of every other type per position, executed through the real module objects and (systematic subset; enum entirely) through scripts, compared with an oracle table name -> direct Go call written independently from docs/stdlib-*.md; Go errors must surface as error values, wrong counts/non-convertible types as run-time errors.",
+   note="Trusted: the oracle tables (checks/c19/spec_*.go) transcribed from the docs, Go's strings/strconv/regexp/math/encoding/time. Outside the Go function's domain (Go itself panics) nothing is claimed. Convertible wrong-typed arguments may be coerced or rejected (docs silent). times.now/since/until read the clock and are not covered.",
+   technique="bounded exhaustive enumeration of function x argument tuples against direct Go calls as reference model",
+   design="4/C19"),
  "C20": dict(
    text="(a) all expression trees with <= 3/4 operators over the 19 binary + 4 unary operators + ternary + postfix forms, printed with minimal parentheses from the documented precedence table, must parse back to the generator's tree; (b) all adjacent token pairs (61 tokens squared) across newline/comment separators in 15 contexts must scan like ';' exactly for the Go-style trigger set; (c) all number spellings up to length 5/6 over a 16-symbol alphabet and all char/string bodies up to length 4/6 must be accepted exactly when go/scanner accepts them, with go/constant's value; (d) every program of a statement-level family must print, re-parse and compile to identical instructions and constants.",
    note="Trusted: go/scanner + go/constant as literal reference; the documented precedence table; Go's semicolon rule carried to Tengo's tokens (the docs do not list the trigger set; pinned, see evidence assumptions).",
